@@ -146,6 +146,9 @@ pub enum Op {
     Skip,
     /// read_text (slice source only)
     ReadText,
+    /// read_to_end* with the name of the n-th enclosing open element (0 = innermost),
+    /// issued at any point inside it (skip scenario, plain Reader only)
+    SkipUp(u8),
     /// config_mut(): set switch `bit` to `on`
     Flip { bit: u8, on: bool },
     /// read `n` raw bytes through Reader::stream(): via 0 = Read::read_exact /
@@ -309,6 +312,11 @@ pub enum Edit {
     With(Vec<(String, String)>),
     SetName(String),
     Clear,
+    /// only as the first edit: the tag does not start as BytesStart::new(name) but already
+    /// carries `init` attributes and comes from 0 = BytesStart::from_content(owned String),
+    /// 1 = BytesStart::from_content(&str), 2 = a Start event handed out by a Reader,
+    /// 3 = template.borrow() of another BytesStart
+    Origin { kind: u8, init: Vec<(String, String)> },
 }
 
 /// how the async sink / pipe behaves; consumed cyclically
@@ -353,6 +361,9 @@ pub struct Plan {
     /// de scenario: which type of the family is the target
     #[serde(default)]
     pub type_id: u32,
+    /// dyn scenario: the generated target type
+    #[serde(default, skip_serializing_if = "Option::is_none")]
+    pub shape: Option<crate::scen_dyn::Shape>,
     /// pipe scenario
     #[serde(default, skip_serializing_if = "Vec::is_empty")]
     pub builds: Vec<Build>,
@@ -377,6 +388,7 @@ impl Plan {
             stream: Stream::slice(),
             enumerate: false,
             type_id: 0,
+            shape: None,
             builds: vec![],
             pipe: PipePlan::default(),
             note: String::new(),
@@ -400,6 +412,7 @@ impl Plan {
         self.stream.hash(&mut h);
         self.enumerate.hash(&mut h);
         self.type_id.hash(&mut h);
+        self.shape.hash(&mut h);
         self.builds.hash(&mut h);
         self.pipe.hash(&mut h);
         h.finish()
